@@ -73,6 +73,32 @@ std::vector<Step> foreign_program(Rng& r, int client, const Pool& pool, int len)
 	return g.out;
 }
 
+// a short history of explicit tree automata of one client (used by C13: what is dumped after operations must come back)
+std::vector<Step> et_history_program(Rng& r, int c, const Pool& pool, int len) {
+	PG g(r, c); TAOpts o; o.max_states = r.range(1, 4);
+	g.load(gen_ta(r, pool, o), 0); o.sparse = r.chance(1, 3); g.load(gen_ta(r, pool, o), 0);
+	for (int i = 0; i < len; ++i) {
+		uint64_t x = r.below(100); int a = g.any(), b = g.any();
+		if (x < 12) g.load(gen_ta(r, pool, o), 0);
+		else if (x < 25) g.value_ops(1);
+		else if (x < 45) g.mutate_ops(1, pool);
+		else switch (r.below(9)) {
+			case 0: g.push(mk(c, "et_union", {a, b, long(r.below(3))}), 0); break;
+			case 1: g.push(mk(c, "et_union_disj", {a, b}), 0); break;
+			case 2: g.push(mk(c, "et_isect", {a, b, long(r.below(2))}), 0); break;
+			case 3: g.push(mk(c, "et_unreach", {a, long(r.below(2))}), 0); break;
+			case 4: g.push(mk(c, "et_useless", {a, long(r.below(2))}), 0); break;
+			case 5: g.push(mk(c, "et_reindex", {a, long(r.below(5)), long(r.below(100000)), 0}), 0); break;
+			case 6: g.push(mk(c, "et_witness", {a}), 0); break;
+			case 7: g.push(mk(c, "et_isect_bu", {a, b, 0}), 0); break;
+			default: g.push(mk(c, "et_reduce", {a}), 0); break;
+		}
+	}
+	int k = r.range(2, 5);
+	for (int i = 0; i < k; ++i) g.push(mk(c, "et_dump", {long(r.below(16))}));
+	return g.out;
+}
+
 static void finish_plan(Plan& p, Rng& r, std::vector<std::vector<Step>>& progs, int abort_pct) {
 	p.clients = int(progs.size());
 	p.steps = interleave(r, progs, int(r.below(3)));
